@@ -98,10 +98,10 @@ def _md(text):
     return int(a), int(b)
 
 
-def spec_matches(name, d: datetime):
+def spec_matches(name, d: datetime, wd=None):
     """entries of the file whose season (wrap-around included) and weekday class contain the date"""
     md = (d.month, d.day)
-    wd = d.weekday()
+    wd = d.weekday() if wd is None else wd
     out = []
     for e in spec_file(name)["schedule"]:
         s, en = _md(e["effective_start"]), _md(e["effective_end"])
@@ -113,23 +113,41 @@ def spec_matches(name, d: datetime):
     return out
 
 
+_day_cache = {}
+
+
+def _spec_day(name, month, day, wd):
+    """season + weekday-class matching of one calendar day, cached: ('ok', [(sec, rate)…], demand) | other"""
+    path = os.path.join(TT.tariff_dir(C.REPO), name + ".json")
+    key = (path, os.path.getmtime(path), month, day, wd)
+    r = _day_cache.get(key)
+    if r is None:
+        m = spec_matches(name, datetime(2000 if (month, day) == (2, 29) else 2001, month, day), wd)
+        if len(m) == 0:
+            r = ("gap",)
+        elif len(m) > 1:
+            r = ("ambiguous", sorted(str(e["id"]) for e in m))
+        else:
+            e = m[0]
+            r = ("ok", [(Fraction(Decimal(t)) * 3600, float(e["tariffs"][i])) for i, t in enumerate(e["times"])],
+                 float(e["demand_charge"]))
+        _day_cache[key] = r
+    return r
+
+
 def spec_lookup(name, d: datetime):
     """('ok', rate, demand) | ('ambiguous', ids) | ('gap',) | ('noprice',)"""
-    m = spec_matches(name, d)
-    if len(m) == 0:
-        return ("gap",)
-    if len(m) > 1:
-        return ("ambiguous", sorted(str(e["id"]) for e in m))
-    e = m[0]
+    r = _spec_day(name, d.month, d.day, d.weekday())
+    if r[0] != "ok":
+        return r
     sod = d.hour * 3600 + d.minute * 60 + d.second
     best = None
-    for i, t in enumerate(e["times"]):
-        bs = Fraction(Decimal(t)) * 3600
+    for bs, rate in r[1]:
         if bs <= sod and (best is None or bs > best[0]):
-            best = (bs, i)
+            best = (bs, rate)
     if best is None:
         return ("noprice",)
-    return ("ok", float(e["tariffs"][best[1]]), float(e["demand_charge"]))
+    return ("ok", best[1], r[2])
 
 
 def spec_kind(name, sp):
@@ -244,7 +262,17 @@ def generate(rng, n, tier):
 
 
 def search(rng, n):
-    return generate(rng, n, "quick")
+    """failing-input search after a broken obligation / disagreement: every day of a leap year and of a
+    common year whose Jan 1 falls on different weekdays (all 366 × 7 … triples are in the main sweep
+    already), plus fresh random vectors"""
+    out = []
+    for f in FILES:
+        for y in (2004, 2023):
+            for mo in range(1, 13):
+                out.append({"t": "sweep", "file": f, "year": y, "month": mo})
+    for i in range(n):
+        out.append(_gen_iface(rng) if i % 3 == 2 else _gen_vec(rng))
+    return out
 
 
 def shrink(case, kind):
@@ -345,8 +373,10 @@ def run_impl(case):
     tar = _tariff(case["file"])
     if t in ("instants", "sweep"):
         ts = instants_of(case)
+        # the demand charge depends on the date only: asked at the first instant of every day
+        first = _first_of_day(ts)
         return {"rates": [_call(tar.get_tariff, dt(x)) for x in ts],
-                "demands": [_call(tar.get_demand_charge, dt(x)) for x in ts]}
+                "demands": [_call(tar.get_demand_charge, dt(x)) if i in first else None for i, x in enumerate(ts)]}
     if t == "vec":
         start = dt(case["start"]).replace(microsecond=case["us"])
         return {"prices": _call(tar.get_tariffs, start, case["n"], case["period"])}
@@ -358,6 +388,15 @@ def run_impl(case):
     if t == "iface":
         return _run_iface(case, tar)
     raise ValueError(t)
+
+
+def _first_of_day(ts):
+    seen, out = set(), set()
+    for i, x in enumerate(ts):
+        if x // 86400 not in seen:
+            seen.add(x // 86400)
+            out.add(i)
+    return out
 
 
 def _fresh(name):
@@ -391,9 +430,6 @@ def _run_iface(case, tar):
     out["energy_cost"] = _call(acnsim.energy_cost, sim)
     out["demand_charge"] = _call(acnsim.demand_charge, sim)
     out["energy_cost_explicit"] = _call(acnsim.energy_cost, sim, tar)
-    # no tariff signal → ValueError("No pricing method is specified.")
-    sim2 = Simulator(net, BaseAlgorithm(), EventQueue(), dt(case["sim_start"]), period=case["period"], verbose=False)
-    out["no_signal"] = _call(Interface(sim2).get_prices, 1, 0)
     return out
 
 
@@ -495,7 +531,7 @@ def compare(case, obs, model):
             out.append(f"Calendar.lean and datetime disagree on t={ts[i]} ({dt(ts[i])}), {len(model['calbad'])} instants")
         for k in ("rates", "demands"):
             for i, (a, m) in enumerate(zip(obs[k], model[k])):
-                if not _same(a, _mval(m)):
+                if a is not None and not _same(a, _mval(m)):
                     out.append(f"{k}[{i}] at {dt(ts[i])}: impl={a} model={_mval(m)}")
                     break
         return out
@@ -596,7 +632,8 @@ def oracle(case, obs):
         ts = instants_of(case)
         for x, r, dm in zip(ts, obs["rates"], obs["demands"]):
             _check_instant(name, dt(x), r, fails)
-            _check_instant(name, dt(x), dm, fails, "get_demand_charge", True)
+            if dm is not None:
+                _check_instant(name, dt(x), dm, fails, "get_demand_charge", True)
     elif t == "vec":
         start = dt(case["start"]).replace(microsecond=case["us"])
         _check_vector(name, start, case["n"], case["period"], obs["prices"], fails, f"get_tariffs({start}, {case['n']}, {case['period']})")
@@ -636,8 +673,6 @@ def oracle(case, obs):
         else:
             bad = next(s for s in specs if s[0] != "ok")
             fails.setdefault(spec_kind(name, bad), f"energy_cost over {len(agg)} periods from {st}: {bad}")
-        if not (isinstance(obs["no_signal"], str) and obs["no_signal"].startswith("ValueError")):
-            fails["no_signal_not_refused"] = str(obs["no_signal"])
     return [{"kind": k, "detail": v} for k, v in fails.items()]
 
 
